@@ -18,7 +18,7 @@ def run(ck):
     cases = ck.path("curve-cases.ndjson")
     ck.tlc("LayoutCurve", "MC_LayoutCurve.%s.cfg" % ck.tier, env={"VF_OUT": cases}, timeout=1500)
     ck.bound("morton_bits_per_dim_exhaustive", [8, 4, 2, 2] if ck.quick else [10, 5, 3, 2])
-    ck.bound("hilbert_k_exhaustive", 6 if ck.quick else 8)
+    ck.bound("hilbert_k_exhaustive", 6 if ck.quick else 10)
     ck.cov["exhaustive"] = True
     cs = vf.read_ndjson(cases)
     ck.sample({"case": [c for c in cs if c["kind"] == "morton" and len(c["c"]) == 3][5]})
